@@ -1,6 +1,6 @@
 """What MANIFEST.json claims.  Only what is built and green on the unchanged tree with several seeds."""
 
-HOOK_COMMITS = []
+HOOK_COMMITS = ["f83646d"]
 
 NOTES = ("Model-based verification with explicit TLA+ specifications (see DESIGN.md). Every verdict comes from behaviour of "
          "the real code rebuilt from /repo's working tree; TLC model-checks the mechanism specs, generates the histories "
@@ -84,9 +84,26 @@ CLAIMED["C14"] = {
     "technique": "TLA+ graph-semantics spec as trace-validation oracle over TLC-enumerated multigraphs and projections, five container variants",
 }
 
+CLAIMED["C19"] = {
+    "level": "model_checking",
+    "text": ("DumpCrash.tla models the dump/checkpoint/resume file protocol with one action per file-system step or database fetch, a "
+             "Crash action between any two steps (<=2 crashes), Resume validation and a stray-file environment action; TLC checks the "
+             "statement (manifest => complete dump; success => equivalent to an uninterrupted dump; never success with a stray file) "
+             "per configuration, and its crash-free step order is compared with the hook trace of the real dump (no drift = the "
+             "exhaustive result speaks about this code). On the real code a child process running retriever.Dump on the fake database "
+             "is SIGKILLed at every numbered step, resumed, crashed again during the resume, hit by read errors at every fetch, and "
+             "resumed after option / source / stray-file changes; the projection of the output directory after every run (fragment id "
+             "sequences, hashes, manifest, checkpoint, temps) is validated by TLC against DumpProp.tla."),
+    "design_ref": "DESIGN.md 4/C19",
+    "note": ("Databases of <=2 graphs x <=3 nodes x <=2 relationships, shard/batch 1..3, three codecs rotating; process crash only (no "
+             "power loss / fsync); resume is allowed to refuse; a source change is only required to be refused once the checkpoint "
+             "holds the source counts. Hooks: util/verifhook + 11 add-only lines in retriever (commit f83646d)."),
+    "technique": "TLA+ crash-interleaving model checking of the file protocol + SIGKILL fault enumeration at every hook step of the real dump + TLC trace validation of directory projections",
+}
+
 _NB = "not built yet in this round (design in DESIGN.md section 4)"
 NOT_APPLICABLE = {
     "C01": "needs the emitted SQL executed on PostgreSQL; no SQL engine exists in this sandbox and a TLA+ model of PostgreSQL would verify the model, not DAWGS (DESIGN.md section 5)",
     "C02": _NB, "C03": _NB, "C04": _NB, "C05": _NB, "C06": _NB, "C07": _NB, "C08": _NB, "C09": _NB, "C10": _NB,
-    "C11": _NB, "C17": _NB, "C18": _NB, "C19": _NB, "C20": _NB,
+    "C11": _NB, "C17": _NB, "C18": _NB, "C20": _NB,
 }
